@@ -9,7 +9,8 @@ FILES = ['mesonbuild/backend/ninjabackend.py', 'mesonbuild/backend/backends.py',
 ENCODED = ['ninjabackend.ninja_quote', 'quote_func -> mesonlib.quote_arg -> shlex.quote (stdlib, instrumented)', 'gcc_rsp_quote', 'cmd_quote',
            'NinjaCommandArg', 'NinjaRule.__init__/_quoter/write/_length_estimate/should_use_rspfile',
            'NinjaBuildElement.add_item/write/_should_use_rspfile/count_rule_references/check_outputs', 'NinjaBuild.add_rule/add_build/write',
-           'Backend.escape_extra_args', 'mesonlib.join_args/split_args (shlex.split, instrumented)']
+           'Backend.escape_extra_args', 'mesonlib.join_args/split_args (shlex.split, instrumented)',
+           'Backend.as_meson_exe_cmdline / get_executable_serialisation (decision to serialise, --capture/--feed wrapping, digest-named pickle file; hashlib, pickle.dump and open are recorders)']
 EXPLANATION = ('Symbolic execution of the real manifest writer: argument strings are symbolic over ASCII 1..126 (every quote, $, #, ;, glob, backslash, newline, '
                'control character at once), rsp_threshold is a symbolic integer so both the command-line and the response-file branch are explored for every '
                'argument; the text written is decoded by reference implementations of the consumers (Ninja lexer + $-evaluation with rule/build scoping, POSIX sh word '
@@ -17,7 +18,7 @@ EXPLANATION = ('Symbolic execution of the real manifest writer: argument strings
 ASSUMPTIONS = ['alphabet ASCII 1..126 (no NUL, no non-ASCII)', 'reference decoders of ninja / sh / buildargv / CommandLineToArgvW are the trusted base (DESIGN.md A.5)',
                'rule-level literal arguments do not start with $ (internal API: a leading $ denotes a ninja variable reference)',
                'POSIX host (quote_func = shlex.quote)']
-OUT = ('the pickled "meson --internal exe" wrapper and mtest create_subprocess_exec (data through pickle, a C module), @TEMPLATE@ substitution in '
+OUT = ('meson_exe.run_exe on the unpickled object and mtest create_subprocess_exec (data through pickle, a C module), @TEMPLATE@ substitution in '
        'eval_custom_target_command (needs Build objects), cmd.exe semantics beyond CommandLineToArgvW, the env K=V wrapper, non-ASCII, arguments longer than the bound')
 MANIFEST = dict(
     text='Bounded symbolic decision of the quoting layers: for ALL argument strings up to the stated length over ASCII 1..126, in each command position and for both the '
@@ -107,6 +108,44 @@ def ob_element(lens, style):
         except DecodeError as e:
             check(False, 'manifest text is not decodable by the consumer: %s' % e)
         cover('roundtrip')
+    return h
+
+
+def ob_two_statements(n):
+    """the same argument string in two build statements of one manifest, one short and one long: with a symbolic threshold one goes through a
+    response file and the other does not - each must still receive exactly its arguments"""
+    def h():
+        a = sym_str(n, 'shared')
+        nb.rsp_threshold = sym_int('rsp_threshold', 0, 300)
+        b = nb.NinjaBuild(); b.add_rule(nb.NinjaRule('R', ['cc'], ['$ARGS', '-o', '$out', '$in'], 'd', rspable=True))
+        pad = 'p' * 60
+        order = choose(2, 'long_first')
+        specs = [('s.o', [a]), ('l.o', [a, pad, a])]
+        if order: specs.reverse()
+        for out, args in specs:
+            el = nb.NinjaBuildElement(set(), out, 'R', 'in.c'); el.add_item('ARGS', list(args)); b.add_build(el)
+        o = Out()
+        try:
+            b.write(o)
+        except ME:
+            check(has_newline([a]), 'MesonException only for newline'); cover('newline-rejected'); return
+        try:
+            rules, builds = parse_manifest(o.text())
+            if decide(bt_any(a == '&&')): cover('andand'); return
+            kinds = set()
+            for bd in builds:
+                want = dict(specs)[path_text(bd['outs'][0])]
+                r = rules[bd['rule']]
+                cmd = sh_split(evaluate(r['command'], bd, rules))
+                if bd['rule'] == 'R_RSP':
+                    argv = buildargv(evaluate(r['rspfile_content'], bd, rules)); kinds.add('rsp')
+                    expect_eq(argv, want + ['-o', path_text(bd['outs'][0]), 'in.c'], 'response file of one of two statements')
+                else:
+                    kinds.add('plain')
+                    expect_eq(cmd, ['cc'] + want + ['-o', path_text(bd['outs'][0]), 'in.c'], 'command line of one of two statements')
+            cover('mixed' if len(kinds) == 2 else 'uniform')
+        except DecodeError as e:
+            check(False, 'manifest text is not decodable by the consumer: %s' % e)
     return h
 
 
@@ -204,6 +243,115 @@ def ob_joinsplit(lens):
     return h
 
 
+class FakeHasher:
+    def __init__(self, log): self.parts = []; log.append(self)
+    def update(self, b):
+        self.parts.append(b.s if hasattr(b, 's') else (b.decode() if isinstance(b, bytes) else b))
+    def hexdigest(self): return 'H%d' % id(self)
+    def text(self):
+        out = ''
+        for p in self.parts: out = out + p
+        return out
+
+
+def run_wrapper(be, BK, args, **kw):
+    """the real as_meson_exe_cmdline with hashlib / pickle / open replaced by recorders; -> (cmdline, pickled object or None, hasher or None)"""
+    import types
+    hashers = []; pickled = []
+    saved = (BK.hashlib, BK.pickle, BK.__dict__.get('open'))
+    BK.hashlib = types.SimpleNamespace(sha1=lambda: FakeHasher(hashers))
+    BK.pickle = types.SimpleNamespace(dump=lambda es, f: pickled.append(es))
+
+    class F:
+        def __init__(self, name): self.name = name
+        def __enter__(self): return self
+        def __exit__(self, *a): return False
+    BK.open = lambda name, mode='r', **k: F(name)
+    try:
+        cmd, reason = be.as_meson_exe_cmdline('prog', list(args), **kw)
+    finally:
+        BK.hashlib, BK.pickle = saved[0], saved[1]
+        if saved[2] is None: del BK.open
+        else: BK.open = saved[2]
+    return cmd, (pickled[0] if pickled else None), (hashers[-1] if hashers else None)
+
+
+def mk_backend_stub():
+    import types
+    from mesonbuild.backend import backends as BK
+    be = object.__new__(BK.Backend)
+    machine = types.SimpleNamespace(is_windows=lambda: False, is_cygwin=lambda: False)
+
+    class Machines:
+        def __getitem__(self, k): return machine
+        def matches_build_machine(self, m): return True
+    be.environment = types.SimpleNamespace(machines=Machines(), get_build_dir=lambda: '/bld', need_exe_wrapper=lambda: False, has_exe_wrapper=lambda: False,
+                                           get_exe_wrapper=lambda: None, get_scratch_dir=lambda: '/bld/meson-private', get_build_command=lambda: ['meson'])
+    be.get_exe_interpreter = lambda cmd, m: []
+    return be, BK
+
+
+WA = "a ',\\"
+
+
+def ob_wrapper_pair(la, lb):
+    """two commands that must be serialised (workdir given): each pickle holds exactly its argv, and different argv never share a pickle file
+    (the file name is a digest of the arguments: hashlib is modelled as injective, so equal digest input means equal file)"""
+    def h():
+        if not concrete():
+            from symx import instr
+            instr.PRECISE_REPR[0] = True
+        try:
+            be, BK = mk_backend_stub()
+            A = [sym_str(n, 'a%d' % i, alphabet=WA) for i, n in enumerate(la)]
+            B_ = [sym_str(n, 'b%d' % i, alphabet=WA) for i, n in enumerate(lb)]
+            ca, pa, ha = run_wrapper(be, BK, A, workdir='/w')
+            cb, pb, hb = run_wrapper(be, BK, B_, workdir='/w')
+            check(pa is not None and pb is not None, 'a command with a workdir goes through the pickled wrapper')
+            if pa is None or pb is None: return
+            expect_eq(pa.cmd_args, ['prog'] + A, 'pickled argv of the first command')
+            expect_eq(pb.cmd_args, ['prog'] + B_, 'pickled argv of the second command')
+            check('--unpickle' in ca and '--unpickle' in cb, 'the command line runs the pickle')
+            ta, tb = ha.text(), hb.text()
+            same_file = len(ta) == len(tb) and decide(bt_any(eq(ta, tb)))
+            same_args = len(A) == len(B_) and all(len(x) == len(y) and decide(bt_any(eq(x, y))) for x, y in zip(A, B_))
+            check((not same_file) or same_args, 'two commands with different arguments never share a pickle file')
+            cover('same-file' if same_file else 'different-files')
+        finally:
+            if not concrete():
+                instr.PRECISE_REPR[0] = False
+    return h
+
+
+def ob_wrapper_modes(n):
+    """plain / capture / feed / newline: the arguments arrive unchanged whichever way the command is wrapped"""
+    def h():
+        be, BK = mk_backend_stub()
+        A = [sym_str(n, 'a0'), sym_str(1, 'a1')]
+        mode = choose(4, 'mode')
+        kw = [{}, {'capture': 'out.txt'}, {'feed': 'in.txt'}, {'workdir': '/w'}][mode]
+        if not concrete():
+            from symx import instr
+            instr.PRECISE_REPR[0] = True
+        try:
+            cmd, pk, hh = run_wrapper(be, BK, A, **kw)
+        finally:
+            if not concrete(): instr.PRECISE_REPR[0] = False
+        nl = decide(bt_any(has_newline(A)))
+        if pk is not None:
+            check(mode == 3 or nl, 'serialised only when it has to be (workdir / newline)')
+            expect_eq(pk.cmd_args, ['prog'] + A, 'pickled argv'); cover('pickled')
+        else:
+            check(not nl, 'an argument with a newline always goes through the pickle (ninja cannot carry it)')
+            if mode == 0:
+                expect_eq(cmd, ['prog'] + A, 'plain command line'); cover('plain')
+            else:
+                i = cmd.index('--')
+                expect_eq(cmd[i + 1:], ['prog'] + A, 'arguments after -- of the internal exe wrapper')
+                check(('--capture' in cmd[:i]) == (mode == 1) and ('--feed' in cmd[:i]) == (mode == 2), 'capture / feed flags'); cover('internal-exe')
+    return h
+
+
 def obligations(tier):
     out = []
     q = tier == 'quick'
@@ -213,6 +361,8 @@ def obligations(tier):
             if style == 'msvc' and (sum(lens) > (3 if q else 5)): continue
             out.append(Obligation('build-var%s/%s' % (lens, style), ob_element(lens, style), dict(arg_lengths=lens, rsp_syntax=style, rsp_threshold='symbolic 0..1000', alphabet='ASCII 1..126'),
                                   labels=('rsp-branch', 'cmdline-branch') + (('newline-rejected',) if sum(lens) else ()), max_paths=3000000))
+    for n in (1, 2) if q else (1, 2, 3):
+        out.append(Obligation('two-statements[%d]' % n, ob_two_statements(n), dict(shared_arg_len=n, rsp_threshold='symbolic'), labels=('mixed', 'uniform'), max_paths=3000000))
     for lens in ([1, 1], [2, 1], [1, 2], [3, 0]) if q else ([1, 1], [2, 1], [1, 2], [3, 0], [0, 3], [2, 2], [4, 0], [3, 2]):
         out.append(Obligation('rule-literal%s' % lens, ob_rule(lens), dict(arg_lengths=lens), labels=('rsp-branch', 'cmdline-branch'), max_paths=3000000))
     for n in (1, 2, 3) if q else (1, 2, 3, 4, 5):
@@ -221,6 +371,12 @@ def obligations(tier):
         out.append(Obligation('escape-extra-args[%d]' % n, ob_escape(n), dict(length=n), labels=('define', 'other')))
     for n in range(0, 5 if q else 7):
         out.append(Obligation('quoters[%d]' % n, ob_quoters(n), dict(length=n), labels=('done',), max_paths=3000000))
+    for la, lb in (([2], [1, 1]), ([3], [1, 1]), ([1, 1], [1, 1]), ([2], [2])) if q else (([2], [1, 1]), ([3], [1, 1]), ([1, 1], [1, 1]), ([2], [2]), ([3], [2, 1]), ([2, 1], [1, 2]), ([4], [1, 2])):
+        out.append(Obligation('exe-wrapper-pair%s%s' % (la, lb), ob_wrapper_pair(la, lb), dict(args_a=la, args_b=lb, alphabet=WA, workdir='given', hashlib='modelled as injective'),
+                              labels=('different-files',), optional_labels=('same-file',), max_paths=5000000))
+    for n in (1,) if q else (1, 2):
+        out.append(Obligation('exe-wrapper-modes[%d]' % n, ob_wrapper_modes(n), dict(arg_lengths=[n, 1], modes='plain | capture | feed | workdir', alphabet='ASCII 1..126'),
+                              labels=('pickled', 'plain', 'internal-exe'), max_paths=5000000))
     for lens in ([1], [2], [1, 1]) if q else ([1], [2], [3], [1, 1], [2, 2]):
         out.append(Obligation('join-split%s' % lens, ob_joinsplit(lens), dict(arg_lengths=lens), labels=('done',), max_paths=3000000))
     return out
